@@ -18,7 +18,7 @@ func init() {
 		Run: runC17,
 		Meta: an.Meta{
 			Technique: "structure of the recover guard, guard facts on every true-returning CFG path of the two isset implementations, exhaustiveness of the nil-able kind table, and sibling agreement of the := / = two-value lookup",
-			Explanation: "(C17.total) Runtime.isSet installs, as its first statement, a deferred literal that calls recover(), sets the named result to false on a non-nil recovery and never re-panics; Arguments.IsSet " +
+			Explanation: "(C17.total) Runtime.isSet installs, before any statement that can panic, a deferred literal that calls recover(), sets the named result to false on a non-nil recovery and never re-panics; Arguments.IsSet " +
 				"routes every non-placeholder argument through isSet; the isset built-in asks IsSet for every index 0 ≤ i < NumOfArguments() and answers false at the first false. (C17.nonnil) every exit of " +
 				"isSet / Arguments.IsSet that answers true for an access path is either the expression `err == nil && notNil(<resolved>)`, or lies behind those two facts; the implicit piped argument and " +
 				"the `_` slot answer notNil(piped value); exits that answer a constant true without having looked at a value are reported. (C17.steps) the field-path loop tests err and notNil for every " +
@@ -30,8 +30,8 @@ func init() {
 			Trusted:     commonTrusted,
 		},
 		Mutants: []Mutant{
-			{Name: "guard re-panics runtime errors", File: "eval.go", Old: "\t\tif r := recover(); r != nil {\n\t\t\t// something panicked while evaluating node\n\t\t\tok = false\n\t\t}", New: "\t\tif r := recover(); r != nil {\n\t\t\tif _, isRT := r.(runtime.Error); isRT {\n\t\t\t\tpanic(r)\n\t\t\t}\n\t\t\tok = false\n\t\t}", Rule: "C17.total"},
-			{Name: "guard installed after the node type is read", File: "eval.go", Old: "func (st *Runtime) isSet(node Node) (ok bool) {\n\tdefer func() {\n\t\tif r := recover(); r != nil {\n\t\t\t// something panicked while evaluating node\n\t\t\tok = false\n\t\t}\n\t}()\n\n\tnodeType := node.Type()\n", New: "func (st *Runtime) isSet(node Node) (ok bool) {\n\tnodeType := node.Type()\n\tdefer func() {\n\t\tif r := recover(); r != nil {\n\t\t\t// something panicked while evaluating node\n\t\t\tok = false\n\t\t}\n\t}()\n\n", Rule: "C17.total"},
+			{Name: "guard re-panics runtime errors", File: "eval.go", Old: "\t\tif r := recover(); r != nil {\n\t\t\t// something panicked while evaluating node\n", New: "\t\tif r := recover(); r != nil {\n\t\t\tif _, isRT := r.(runtime.Error); isRT {\n\t\t\t\tpanic(r)\n\t\t\t}\n", Rule: "C17.total"},
+			{Name: "guard installed after the node type is read", File: "eval.go", Old: "\tscope, context, content := st.scope, st.context, st.content\n\n\tdefer func() {\n\t\tif r := recover(); r != nil {\n\t\t\t// something panicked while evaluating node\n\t\t\tst.scope, st.context, st.content = scope, context, content\n\t\t\tok = false\n\t\t}\n\t}()\n\n\tnodeType := node.Type()\n", New: "\tscope, context, content := st.scope, st.context, st.content\n\tnodeType := node.Type()\n\n\tdefer func() {\n\t\tif r := recover(); r != nil {\n\t\t\t// something panicked while evaluating node\n\t\t\tst.scope, st.context, st.content = scope, context, content\n\t\t\tok = false\n\t\t}\n\t}()\n\n", Rule: "C17.total"},
 			{Name: "maps can no longer be nil for isset", File: "eval.go", Old: "\tcase reflect.Chan, reflect.Func, reflect.Interface, reflect.Map, reflect.Ptr, reflect.Slice:\n\t\treturn !v.IsNil()", New: "\tcase reflect.Chan, reflect.Func, reflect.Interface, reflect.Ptr, reflect.Slice:\n\t\treturn !v.IsNil()", Rule: "C17.kinds"},
 			{Name: "only the last step of a field path is tested", File: "eval.go", Old: "\t\t\tresolved, err = resolveIndex(resolved, reflect.Value{}, node.Ident[i])\n\t\t\tif err != nil || !notNil(resolved) {\n\t\t\t\treturn false\n\t\t\t}\n\t\t}", New: "\t\t\tresolved, err = resolveIndex(resolved, reflect.Value{}, node.Ident[i])\n\t\t\tif err != nil {\n\t\t\t\treturn false\n\t\t\t}\n\t\t}\n\t\tif !notNil(resolved) {\n\t\t\treturn false\n\t\t}", Rule: "C17.steps"},
 			{Name: "identifier exists as soon as it resolves (nil value counts as set)", File: "eval.go", Old: "\t\tvalue, err := st.resolve(node.String())\n\t\treturn err == nil && notNil(value)", New: "\t\tvalue, err := st.resolve(node.String())\n\t\t_ = value\n\t\treturn err == nil", Rule: "C17.nonnil"},
@@ -56,9 +56,24 @@ func runC17(c *an.Ctx) {
 	info := isSet.Info()
 
 	// ---------------------------------------------------------------- C17.total
-	okGuard, why := false, "the first statement of isSet is not a deferred function literal"
-	if len(isSet.Body.List) > 0 {
-		if d, ok := isSet.Body.List[0].(*ast.DeferStmt); ok {
+	okGuard, why := false, "isSet installs no deferred function literal that recovers"
+	// the guard: the first deferred literal of the body that recovers; what stands before it cannot panic
+	// (copies of the receiver's fields into locals)
+	guardAt := -1
+	for i, s := range isSet.Body.List {
+		if d, ok := s.(*ast.DeferStmt); ok {
+			if fl, ok := an.Unparen(d.Call.Fun).(*ast.FuncLit); ok && len(p.CallsIn(p.FnByLit[fl], "builtin.recover")) > 0 {
+				guardAt = i
+				break
+			}
+		}
+		if !c17stmtCannotPanic(p, isSet, s) {
+			why = "isSet executes `" + an.Str(s) + "`, which can panic, before its recovering guard is installed"
+			break
+		}
+	}
+	if guardAt >= 0 {
+		if d, ok := isSet.Body.List[guardAt].(*ast.DeferStmt); ok {
 			if fl, ok := an.Unparen(d.Call.Fun).(*ast.FuncLit); ok {
 				lit := p.FnByLit[fl]
 				recovers := len(p.CallsIn(lit, "builtin.recover")) == 1
@@ -818,4 +833,71 @@ func c17lookup(c *an.Ctx) {
 		c.Check(ok, "C17.lookup", "(*Template).assignmentOrExpression/form", f.Pos(), "the two-value lookup is selected only for two targets and one index-expression source",
 			"the parser marks an assignment as a two-value map lookup without having established 2 targets, 1 source of kind index expression")
 	}
+}
+
+// c17stmtCannotPanic: an assignment or declaration whose right-hand sides only copy locals, parameters and
+// fields of the receiver (no call that can panic, no index, no dereference of anything else, no assertion).
+func c17stmtCannotPanic(p *an.Prog, f *an.Fn, s ast.Stmt) bool {
+	info := f.Info()
+	var rhs []ast.Expr
+	switch s := s.(type) {
+	case *ast.AssignStmt:
+		for _, l := range s.Lhs {
+			if _, isId := l.(*ast.Ident); !isId {
+				return false
+			}
+		}
+		rhs = s.Rhs
+	case *ast.DeclStmt:
+		gd, ok := s.Decl.(*ast.GenDecl)
+		if !ok {
+			return false
+		}
+		for _, sp := range gd.Specs {
+			if vs, isVS := sp.(*ast.ValueSpec); isVS {
+				rhs = append(rhs, vs.Values...)
+			}
+		}
+	case *ast.EmptyStmt:
+		return true
+	default:
+		return false
+	}
+	var recv types.Object
+	if f.Decl != nil && f.Decl.Recv != nil && len(f.Decl.Recv.List) == 1 && len(f.Decl.Recv.List[0].Names) == 1 {
+		recv = an.ObjOf(info, f.Decl.Recv.List[0].Names[0])
+	}
+	ok := true
+	for _, e := range rhs {
+		ast.Inspect(e, func(n ast.Node) bool {
+			if !ok {
+				return false
+			}
+			switch n := n.(type) {
+			case *ast.CallExpr:
+				if !c11cannotPanic(p, f, n, 0) {
+					ok = false
+				}
+			case *ast.IndexExpr, *ast.SliceExpr, *ast.StarExpr, *ast.TypeAssertExpr, *ast.FuncLit:
+				ok = false
+			case *ast.BinaryExpr:
+				if n.Op == token.QUO || n.Op == token.REM || n.Op == token.SHL || n.Op == token.SHR {
+					ok = false
+				}
+			case *ast.SelectorExpr:
+				if sel := info.Selections[n]; sel != nil {
+					// a field of the receiver (the method is running: the receiver is not nil) or of a struct value
+					id, isId := an.Unparen(n.X).(*ast.Ident)
+					if _, isPtr := info.TypeOf(n.X).Underlying().(*types.Pointer); isPtr && !(isId && recv != nil && an.ObjOf(info, id) == recv) {
+						ok = false
+					}
+					if sel.Indirect() && !(isId && recv != nil && an.ObjOf(info, id) == recv) {
+						ok = false
+					}
+				}
+			}
+			return ok
+		})
+	}
+	return ok
 }
